@@ -2228,14 +2228,29 @@ class Canon:
 
         def lookup(call):
             f = call.func
-            if supers and cls is not None and isinstance(f, ast.Attribute) and isinstance(f.value, ast.Call) and u(f.value.func) == "super" and not f.value.args:
-                # super().m(..) inside a method defined in class D: the next definition of m after D along the receiver's MRO
-                owner = next((k_ for k_ in cls.mro if fn in k_.methods.values()), None)
+            if supers and cls is not None and isinstance(f, ast.Attribute) and isinstance(f.value, ast.Call) and u(f.value.func) == "super" \
+                    and (not f.value.args or (len(f.value.args) == 2 and isinstance(f.value.args[0], ast.Name))):
+                # super().m(..) inside a method defined in class D: the next definition of m after D along the receiver's MRO.
+                # (inside an inlined body the defining class is written out: super(D, self), see below)
+                if f.value.args:
+                    owner = next((k_ for k_ in cls.mro if k_.name == f.value.args[0].id), None)
+                else:
+                    owner = next((k_ for k_ in cls.mro if fn in k_.methods.values()), None)
                 if owner is not None and owner in cls.mro:
                     for k_ in cls.mro[cls.mro.index(owner) + 1:]:
                         if f.attr in k_.methods:
                             m_ = k_.methods[f.attr]
                             if not any(u(d) in ("property", "staticmethod", "classmethod", "cached_property") for d in m_.decorator_list):
+                                if any(isinstance(n, ast.Call) and u(n.func) == "super" and not n.args for n in ast.walk(m_)):
+                                    # its own super() calls ascend from ITS class, not from the method being analysed
+                                    m2 = copy.deepcopy(m_)
+                                    sn = m2.args.args[0].arg if m2.args.args else "self"
+                                    for n in ast.walk(m2):
+                                        if isinstance(n, ast.Call) and u(n.func) == "super" and not n.args:
+                                            n.args = [ast.Name(id=k_.name, ctx=ast.Load()), ast.Name(id=sn, ctx=ast.Load())]
+                                    ast.fix_missing_locations(m2)
+                                    self._keepalive.append(m2)
+                                    return m2, True, prep
                                 return m_, True, prep
                             break
                 return None
